@@ -21,7 +21,7 @@ def decUrl? (tok : String) : Option UrlC := do
   | _ => none
 
 /-- reply: two tokens `status:hasLoc:kind` and a url token (`~` unless kind = 2).
-kind 0 = invalid target, 1 = other scheme, 2 = url, 3 = no response -/
+kind 0 = invalid target, 1 = other scheme, 2 = url, 3 = connection closed (NetworkError), 4 = garbage (ProtocolError) -/
 def decReplies? : List String → Option (List Reply)
   | [] => some []
   | [_] => none
@@ -31,7 +31,8 @@ def decReplies? : List String → Option (List Reply)
     | [st, hl, kind] =>
       let st ← st.toNat?
       let hasLoc := hl == "1"
-      if kind == "3" then some (.fail :: rest)
+      if kind == "3" then some (.fail .NetworkError :: rest)
+      else if kind == "4" then some (.fail .ProtocolError :: rest)
       else if kind == "2" then do
         let uc ← decUrl? u
         some (.resp st hasLoc (.url uc) :: rest)
@@ -95,6 +96,12 @@ def handle : List String → String
     match decList? s with
     | some s => encList (title s) ++ " " ++ encList (capitalize s)
     | none => "bad-arg"
+  | ["referer", fields, parent, scheme] =>
+    match decFields? fields, decList? parent, decList? scheme with
+    | some f, some parent, some scheme =>
+      let g := populateReferrer f parent scheme
+      encLists ((getAll g).flatMap (fun p => [p.1, p.2]))
+    | _, _, _ => "bad-arg"
   | ["auth", u, p] =>
     match decList? u, decList? p with
     | some u, some p => encList (basicAuth u p)
